@@ -18,7 +18,7 @@ import (
 // C14 — parsers, profiles and read-only URL values are safe for concurrent use.
 
 type Op14 struct {
-	Kind  string `json:"kind"` // parse parse-other parseref resolve getters spread clone encode derive
+	Kind  string `json:"kind"` // parse parse-other parseref resolve getters spread newurl clone encode derive
 	Base  int    `json:"base"`
 	Value B      `json:"value,omitempty"`
 	Set   int    `json:"set,omitempty"`
@@ -94,6 +94,17 @@ func run14(c Case14, p url.Parser, bases []*url.Url, touched []bool, o Op14) str
 			return "no base"
 		}
 		return result14(b.Clone(), nil)
+	case "newurl":
+		// a fresh value from the shared parser, private to this goroutine, then written to: parsers
+		// hand out values, they do not share them
+		nu := p.NewUrl()
+		if nu == nil {
+			return "nil"
+		}
+		nu.SetPathname(string(o.Value))
+		nu.SetSearch("k=" + string(o.Value))
+		nu.SetHash(string(o.Value))
+		return fmt.Sprintf("%q %q %q %q", nu.Pathname(), nu.Search(), nu.Hash(), nu.Href(false))
 	case "spread":
 		// reads through the parameter-list handle of a shared URL — only where the handle was created
 		// before the URL was shared (creating it is a write, §7.4); with the list in place
@@ -393,7 +404,7 @@ func Gen14(t *rapid.T) Case14 {
 		c.Setup = append(c.Setup, setup)
 	}
 	ng := rapid.IntRange(2, 8).Draw(t, "goroutines")
-	kinds := []string{"resolve", "resolve", "resolve", "getters", "getters", "clone", "parse", "parse", "parse-other", "parseref", "encode", "derive", "spread", "spread"}
+	kinds := []string{"resolve", "resolve", "resolve", "getters", "getters", "clone", "parse", "parse", "parse-other", "parseref", "encode", "derive", "spread", "spread", "newurl"}
 	for g := 0; g < ng; g++ {
 		n := rapid.IntRange(1, 6).Draw(t, "nops")
 		var script []Op14
@@ -414,6 +425,8 @@ func Gen14(t *rapid.T) Case14 {
 				}
 			case "spread":
 				o.Value = B(gen.Pick(t, "spname", []string{"a", "q", "k", "x", "", "d"}))
+			case "newurl":
+				o.Value = B(gen.Pick(t, "nuvalue", []string{"/a/b", "x", "", "/p q", "/../c", "é"}))
 			case "encode":
 				o.Value = B(gen.Pick(t, "input", c14Inputs))
 				o.Set = rapid.IntRange(0, len(NamedSets)-1).Draw(t, "set")
@@ -430,7 +443,7 @@ func Gen14(t *rapid.T) Case14 {
 
 var P14 = core.Register(core.Prop[Case14]{
 	ID: "C14",
-	Rule: "generated concurrent programs: one shared parser (package-level functions, default parser, one of the four predefined profiles, or 1..4 generated options), 1..3 shared base URLs parsed with it, a third of them with a sequential history of 1..3 setters / resolutions / clones behind them, half never touched after that (so lazily created state does not exist yet), 2..8 goroutines released from one barrier, each with a script of 1..6 read-only operations (Parse, the same through a second differently configured parser, ParseRef with a shared base string, (*Url).Parse on a shared base, all pure getters of a shared base, Get / Has / GetAll / String through the parameter-list handle of a shared base where that handle was created before sharing, Clone of a shared base, PercentEncodeString with shared named sets, Set/Clear derivations from shared named sets); " +
+	Rule: "generated concurrent programs: one shared parser (package-level functions, default parser, one of the four predefined profiles, or 1..4 generated options), 1..3 shared base URLs parsed with it, a third of them with a sequential history of 1..3 setters / resolutions / clones behind them, half never touched after that (so lazily created state does not exist yet), 2..8 goroutines released from one barrier, each with a script of 1..6 read-only operations (Parse, the same through a second differently configured parser, ParseRef with a shared base string, (*Url).Parse on a shared base, all pure getters of a shared base, Get / Has / GetAll / String through the parameter-list handle of a shared base where that handle was created before sharing, Clone of a shared base, NewUrl followed by setters on the private value, PercentEncodeString with shared named sets, Set/Clear derivations from shared named sets); " +
 		"oracle (test binary built with -race): (1) the race detector's log does not grow during the program, (2) every operation's result equals the result of the same operation run alone on private copies, (3) fingerprints of every exported package-level table and behavioural probes of the unexported ones are unchanged; " +
 		"non-trivial = at least 2 goroutines use the same base URL and at least one of them resolves against it; distinct by hash of the program",
 	Gen:   Gen14,
